@@ -298,16 +298,21 @@ theorem released_all_gone {s : State} (hr : Reachable s) (hq : Quiescent s) {o :
         rw [hal] at this; cases this
   exact ⟨hent, hrefs, Or.inr hrefs⟩
 
-/-- **Released when the provider is dropped.**  In a quiescent reachable state, an object whose
-provider was dropped has no storage entry on any connection, so no handle that is or will be on the
-wire can be re-attached to it; its cell is referenced only by handles still attached on the creating
-endpoint (`LocalCreated` clones and handles that had returned home before), and the value is dropped
-as soon as there is none of those.
+/-- **Released when the provider is dropped** — partial.
 
-Full wording of the property ("the stored value is released once ... its provider is dropped") holds
-for the value *stored in the connection storages*; the code keeps the value alive for local handles
-that already hold the cell (see report). -/
-theorem released_provider_dropped {s : State} (hr : Reachable s) (hq : Quiescent s) {o : Nat} {ob : Obj}
+Full statement of the property clause (NOT true of the code, finding F-C20-1, so not provable of a
+faithful model):
+
+    Reachable s → Quiescent s → s.objs[o]? = some ob → ob.prov = .dropped →
+      (∀ e ∈ s.entries, e.obj ≠ o) ∧ valueGone s o
+
+What holds and is proved: in a quiescent reachable state, an object whose provider was dropped has no
+storage entry on any connection, so no handle that is or will be on the wire can be re-attached to
+it; its cell is referenced only by handles still attached *on the creating endpoint* (`LocalCreated`
+clones and handles that had returned home before); the value is gone as soon as there is none of
+those.  Missing for the full statement: the code lets those local handles keep the value alive and
+usable (`into_inner / as_ref / as_mut` never look at the provider). -/
+theorem released_provider_dropped_partial {s : State} (hr : Reachable s) (hq : Quiescent s) {o : Nat} {ob : Obj}
     (hob : s.objs[o]? = some ob) (hp : ob.prov = .dropped) :
     (∀ e ∈ s.entries, e.obj ≠ o) ∧
     (∀ hd ∈ s.handles, hd.attached o = true → hd.ep = ob.ep ∧ hd.origin = o) ∧
@@ -441,6 +446,43 @@ theorem uncut_fetch_succeeds (n : Nat) (data : Bytes) (cuts : List (Option Nat))
   constructor
   · rw [fetchBlob_eq, minCut_all cuts _ h]; simp
   · unfold fetchItem; rw [itemTransfer_eq, if_pos h]
+
+/-- State-machine form: a consumer object that was forwarded `k` times (at least once for a blob,
+see finding F-C20-2) and then fetches over undisturbed connections, provider alive, gets the data. -/
+theorem first_fetch_succeeds (blob : Bool) (data : Bytes) (chunkSz k : Nat) (hk : blob = true → 0 < k) :
+    (lrun (provide blob data chunkSz) (List.replicate k .forward ++ [.fetch []])).results = [.ok data] := by
+  have happ : ∀ (a b : List LOp) (s : LState), lrun s (a ++ b) = lrun (lrun s a) b := by
+    intro a
+    induction a with
+    | nil => intro b s; rfl
+    | cons o a ih => intro b s; exact ih b (lstep s o)
+  have hfw : ∀ (k : Nat) (s : LState), s.cache = none →
+      lrun s (List.replicate k LOp.forward) = { s with hops := s.hops + k } := by
+    intro k
+    induction k with
+    | zero => intro s _; rfl
+    | succ k ih =>
+      intro s hc
+      simp only [List.replicate_succ, lrun]
+      rw [ih (lstep s .forward) rfl]
+      simp only [lstep]
+      cases s
+      simp at hc
+      simp [hc]; omega
+  rw [happ, hfw k _ rfl]
+  have hcuts : ∀ c ∈ pathCuts k [], passes (chunk chunkSz true data).length c = true := by
+    intro c hc
+    simp [pathCuts] at hc
+    obtain ⟨_, _, rfl⟩ := hc
+    rfl
+  have h := uncut_fetch_succeeds chunkSz data (pathCuts k []) hcuts
+  cases blob with
+  | true =>
+    have hk' := hk rfl
+    have hne : ¬ (k = 0) := by omega
+    simp [lrun, lstep, provide, h.1, hne]
+  | false =>
+    simp [lrun, lstep, provide, h.2]
 
 /-! ### non-vacuity -/
 
